@@ -56,7 +56,9 @@ const char *rsv_class_names[RSV_NCLS] = {
     [K_RANKS] = "ranks", [K_REMOTE_SENT] = "remote_events_sent", [K_REMOTE_ANTI] = "remote_anti_messages", [K_EARLY_ANTI] = "anti_message_overtook_its_event",
     [K_EARLY_MATCH] = "event_annihilated_by_stored_early_anti", [K_REMOTE_ANTI_MATCHED] = "remote_anti_matched_processed_event",
     [K_NET_DELAYED] = "network_messages_delayed", [K_NET_OVERTAKES] = "network_stream_overtakes", [K_NET_TEST_SKIPPED] = "collective_completions_delayed",
-    [K_NET_LEFTOVER] = "network_messages_never_received", [K_CROSS_RANK_REF] = "runs_with_several_ranks"};
+    [K_NET_LEFTOVER] = "network_messages_never_received", [K_CROSS_RANK_REF] = "runs_with_several_ranks", [K_PRESET_TICK] = "preset_tick_chains",
+    [K_PRESET_CASCADE] = "preset_cancelled_cascade_is_minimum",
+    [K_GVT_BOUND_BY_ANTI] = "gvt_values_equal_to_a_just_extracted_anti_message"};
 
 struct rt_ctx RT;
 static char PROP[8] = "C01";
@@ -139,8 +141,22 @@ static void decode_spec(struct tape *t, struct gm_spec *g)
 	/* scenario preset "tick chains" (about one case in six): integer ticks, every LP starts a long zero-delay chain at its
 	 * tick, goals large enough that the LPs stay active - many events share a timestamp on different threads, GVT values
 	 * coincide with event timestamps, and what is committed at exactly the GVT matters */
-	RT.preset = t_choice(t, 6) == 5;
-	if(RT.preset && !c10 && !c07 && !c08) {
+	unsigned pz = t_choice(t, 6);
+	RT.preset = pz == 5;
+	if(!strcmp(PROP, "C04") && (pz == 4 || pz == 3)) {
+		/* scenario preset "cancelled cascade is the minimum" (C04 only, one case in three): sparse heartbeats and long
+		 * zero-delay chains hopping between threads.  When the originator of a chain is rolled back, the chain is undone by
+		 * a cascade of anti-messages, one in flight at a time, while every other LP is already beyond that timestamp: the
+		 * only thing that holds the GVT down is a message that sits in nobody's queue for most of the time. */
+		RT.preset = 2;
+		g->hb_scale = (uint8_t[]){100, 20, 7}[t_choice(t, 3)];
+		g->chain_len = (uint8_t[]){200, 60, 30}[t_choice(t, 3)];
+		g->chain_start = (uint8_t[]){255, 160}[t_choice(t, 2)];
+		goal_base = (unsigned[]){60, 150, 20}[t_choice(t, 3)];
+		if(g->n_lps < 3)
+			g->n_lps = 3 + t_choice(t, 6);
+	}
+	if(RT.preset == 1 && !c10 && !c07 && !c08) {
 		g->time_mode = 1;
 		g->chain_len = (uint8_t[]){30, 60, 200, 12}[t_choice(t, 4)];
 		g->chain_start = (uint8_t[]){255, 160}[t_choice(t, 2)];
@@ -274,7 +290,7 @@ static void decode_cfg(struct tape *t, struct rt_cfg *c, const struct gm_spec *g
 	if(c->ranks > g->n_lps)
 		c->ranks = g->n_lps; /* a rank without LPs runs no thread and cannot take part in the reductions: outside the domain */
 	c->n_threads = 1 + t_choice(t, 3);      /* per rank */
-	c->stats = 0;
+	c->stats = !strcmp(PROP, "C20"); /* no tape byte: saved E4 tapes keep their meaning */
 	c->core_binding = 0;
 	c->net_delay_max = (unsigned[]){0, 200, 2000, 20000, 60}[t_choice(t, 5)];
 	c->net_delay_prob = (unsigned[]){128, 30, 255}[t_choice(t, 3)];
@@ -402,6 +418,8 @@ int rsv_case(const uint8_t *tape, size_t len, struct rsv_result *res)
 	    .committed = (CanEnd_t)gm_CanEnd};
 	res->cls[c->serial ? K_RUNS_SERIAL : c->mode == RSV_MODE_DET ? K_RUNS_DET : K_RUNS_FREE] = 1;
 	res->cls[K_THREADS_GT_LPS] = !c->serial && c->n_threads * c->ranks > g->n_lps;
+	res->cls[K_PRESET_TICK] = RT.preset == 1;
+	res->cls[K_PRESET_CASCADE] = RT.preset == 2;
 	int rc = 0;
 #ifdef RSV_E4
 	{
